@@ -296,7 +296,13 @@ func c06(c *core.Ctx, r *core.Report) {
 					if k != nil && k.Value != nil {
 						val = k.Value.String()
 					}
-					okk := (val == "true" && name == "teardown") || (val == "false" && name == "Reset")
+					hf := handleFields(c)
+					okk := (val == hf.tearingOn && name == "teardown") || (val == hf.tearingOff && name == "Reset")
+					if val == hf.tearingOn {
+						val = "true"
+					} else if val == hf.tearingOff {
+						val = "false"
+					}
 					r.Check(okk, core.FuncName(fn)+"#tearingDown="+val, an.Pos(c, in), name+" sets tearingDown="+val, "tearingDown set to "+val+" in "+core.FuncName(fn)+": failures are attributed to the wrong phase")
 				}
 			})
